@@ -125,8 +125,6 @@ structure Mon where
   /-- requests in flight: their id and whether they were admitted by the remote limiter in force now (not rebuilt,
       not stopped since) -/
   held : List (Nat × Bool) := []
-  /-- how many of them count against the remote limiter in force -/
-  nRem : Int := 0
   /-- requests admitted by a remote limiter were still running when it was (legitimately) rebuilt or stopped: the
       in-flight clause is not applied any more (see notes: their Release goes into the NEW limiter) -/
   tainted : Bool := false
@@ -223,13 +221,6 @@ def Mon.next (m : Mon) (op : Op) (o : Obs) : Mon :=
           else m.held
         | .release id => m.held.filter fun h => !(h.1 == id)
         | _ => m.held
-    nRem :=
-      if rebuilds m op || stopsRemote m op then 0
-      else match op with
-        | .acquire id =>
-          if o.admitted = some true ∧ !(m.held.any (·.1 == id)) ∧ m.prev.choice = .remote then m.nRem + 1 else m.nRem
-        | .release id => if m.held.any (fun h => h.1 == id && h.2) then m.nRem - 1 else m.nRem
-        | _ => m.nRem
     tainted := m.tainted || ((rebuilds m op || stopsRemote m op) && m.held.any (·.2))
     owed :=
       if rebuilds m op || stopsRemote m op then 0
@@ -361,7 +352,7 @@ def judgeDemand (m : Mon) (now : Int) (o : Obs) : List String :=
 def judgeAcquire (m : Mon) (id : Nat) (o : Obs) : List String :=
   let p := m.prev
   if o.admitted = some true ∧ !(m.held.any (·.1 == id)) ∧ p.choice = .remote ∧ m.tainted = false ∧
-     isMI p.rlim = true ∧ ¬ (m.nRem + 1 ≤ m.ob.mi)
+     isMI p.rlim = true ∧ ¬ ((m.held.countP (·.2) : Int) + 1 ≤ m.ob.mi)
   then ["c09.inflight-exceeds-global"] else []
 
 /-- clauses about the transition made by `op` from the monitor `m` (before) to the observation `o` (after) -/
